@@ -46,7 +46,7 @@ def staticSize (p : SKProvider) : Expr → Option Nat
   | .bin _ _ _ => none
   | .slice hi lo _ =>
     match tryEvalUsize hi, tryEvalUsize lo with
-    | some h, some l => if l > h + 1 then none else some (h + 1 - l)
+    | some h, some l => if l > h then none else if h + 1 ≥ USIZE_MAX1 then none else some (h + 1 - l)
     | _, _ => none
   | .sliceShort size _ => tryEvalUsize size
   | .tern _ t f =>
